@@ -49,7 +49,12 @@ func C17(c *Ctx) {
 		chain = 64
 	}
 	configs := []string{"ForPost", "ForCondProbe", "While", "Infinite", "Continue", "ContinueWhile", "RangeInt", "RangeSlice", "Switch", "Nested", "Filter",
-		"rawFor", "rawWhileContinue", "rawLoopBreak", "rawCombineInLoop"}
+		"NestedCondInner", "NestedEndlessInner", "ThreeLevels",
+		"rawFor", "rawWhileContinue", "rawLoopBreak", "rawCombineInLoop", "rawSharedInner"}
+	// configurations that also exist in the variant "yield at the first iteration as well": the long
+	// non-yielding stretch then comes AFTER a yield of the same loop run
+	withFirst := map[string]bool{"ForPost": true, "ForCondProbe": true, "While": true, "Infinite": true, "Continue": true, "ContinueWhile": true, "RangeInt": true,
+		"RangeSlice": true, "Switch": true, "Nested": true, "Filter": true, "NestedCondInner": true, "NestedEndlessInner": true, "ThreeLevels": true, "rawSharedInner": true}
 	type result struct {
 		Config string         `json:"config"`
 		N      int            `json:"n"`
@@ -62,18 +67,26 @@ func C17(c *Ctx) {
 	var wg sync.WaitGroup
 	sem := make(chan struct{}, 8)
 	samples := map[string]any{}
-	run := func(cfg string, n int) {
+	run := func(cfg string, n int, first bool) {
 		defer wg.Done()
 		sem <- struct{}{}
 		defer func() { <-sem }()
-		if c.Only != "" && c.Only != "stack:"+cfg {
+		id := "stack:" + cfg
+		argv := []string{bin, "-config", cfg, "-n", fmt.Sprint(n)}
+		wantYields := 1
+		if first {
+			id += ":yield-first-too"
+			argv = append(argv, "-first")
+			wantYields = 2
+		}
+		if c.Only != "" && c.Only != id {
 			return
 		}
-		r := work.Run(work.Cmd{Dir: sc.Dir, Env: work.Env(), Argv: []string{bin, "-config", cfg, "-n", fmt.Sprint(n)}, Timeout: 15 * time.Minute})
+		r := work.Run(work.Cmd{Dir: sc.Dir, Env: work.Env(), Argv: argv, Timeout: 15 * time.Minute})
 		mu.Lock()
 		defer mu.Unlock()
 		c.Rep.Eval(1)
-		id := "stack:" + cfg
+		cfgKey := strings.TrimPrefix(id, "stack:")
 		outS := string(r.Out)
 		i := strings.LastIndex(outS, "RESULT:")
 		if r.TimedOut {
@@ -113,8 +126,8 @@ func C17(c *Ctx) {
 			}
 			return
 		}
-		if res.Yields != 1 {
-			c.Rep.HarnessError(fmt.Sprintf("%s: expected exactly 1 yield, got %d", id, res.Yields))
+		if res.Yields != wantYields {
+			c.Rep.HarnessError(fmt.Sprintf("%s: expected exactly %d yields, got %d", id, wantYields, res.Yields))
 			return
 		}
 		base, ok := res.Depths["10"]
@@ -137,10 +150,10 @@ func C17(c *Ctx) {
 			if ix >= 10 && d-base > worst {
 				worst, worstAt = d-base, ix
 			}
-			c.Rep.Distinct(fmt.Sprintf("%s/%d", cfg, ix))
+			c.Rep.Distinct(fmt.Sprintf("%s/%d", cfgKey, ix))
 		}
 		c.Rep.Count("depth_samples", len(idxs))
-		samples[cfg] = strings.Join(line, " ")
+		samples[cfgKey] = strings.Join(line, " ")
 		if len(idxs) < 4 {
 			c.Rep.Inconclusive(id + ": too few depth samples")
 		}
@@ -152,16 +165,20 @@ func C17(c *Ctx) {
 	}
 	for _, cfg := range configs {
 		wg.Add(1)
-		go run(cfg, n)
+		go run(cfg, n, false)
+		if withFirst[cfg] {
+			wg.Add(1)
+			go run(cfg, n, true)
+		}
 	}
 	wg.Add(1)
-	go run("Chain", chain)
+	go run("Chain", chain, false)
 	wg.Wait()
 	c.Rep.Sample(samples)
 	c.Rep.Set("iterations_between_yields", n)
 	c.Rep.Set("delegation_depth", chain)
 	c.Rep.Set("growth_bound_frames", maxGrowth)
-	c.Rep.Rule = "15 loop configurations (compiled for/while/infinite/continue/range-int/range-slice/switch/nested/filter-over-source generators produced by the real compiler, and raw seq.For/While/Loop/Combine terms) whose body yields only on the last of n iterations; runtime.Callers depth sampled inside the loop body/condition at iterations 2,10,100,...,n; oracle: depth(i>=10) - depth(10) <= 16 frames; delegation chains d=1..D: per-level increment constant (+4). One child process per configuration (a stack overflow is fatal). distinct = configuration x sampled iteration index."
+	c.Rep.Rule = "19 loop configurations (compiled for/while/infinite/continue/range-int/range-slice/switch/nested (inner three-clause, inner condition-only and endless loops without init that contain the yield, three levels)/filter-over-source generators produced by the real compiler, and raw seq.For/While/Loop/Combine terms incl. one inner loop VALUE re-run by an outer loop) whose body yields only on the last of n iterations, each also in the variant that yields at the first iteration too (the non-yielding stretch then follows a yield of the same loop run); runtime.Callers depth sampled inside the loop body/condition at iterations 2,10,100,...,n; oracle: depth(i>=10) - depth(10) <= 16 frames; delegation chains d=1..D: per-level increment constant (+4). One child process per configuration (a stack overflow is fatal). distinct = configuration x sampled iteration index."
 	c.Rep.Assumptions = append(c.Rep.Assumptions,
 		"the unbounded 'for all n' is restated as bounded growth up to the stated n; a finite run cannot decide more",
 		"growth, not absolute depth, is judged, so refactorings that add a constant number of frames pass")
